@@ -63,6 +63,10 @@ async def check_request(ctx, s, engine, req, sdl, require_valid=True):
         w_ref.p_null_nonnull = w_eng.p_null_nonnull = 0.04
     if req.wseed % 3 == 0:
         w_eng.share_values = True                 # one field instance reached twice hands out the same list / object
+    if req.wseed % 13 == 0:
+        for w_ in (w_ref, w_eng):
+            w_.p_long_obj, w_.long_obj_sizes = 0.3, (128, 257, 600)     # size boundaries: wide root-level lists of objects
+        st.inc("requests_with_wide_object_lists_enabled")
     if req.wseed % 11 == 0:
         w_ref.p_long = w_eng.p_long = 0.05        # size boundaries: lists of 513 / 600 / 1030 leaves
         st.inc("requests_with_long_lists_enabled")
